@@ -244,7 +244,8 @@ func (r *runner) run(ctx context.Context, isStream bool, input any, opts ...Opti
 		ctx, input = onGraphStart(ctx, input, isStream)
 		haveOnStart = true
 
-		nextTasks, result, err = r.calculateNextTasks(ctx, []*task{{
+		var reachedEnd bool
+		nextTasks, result, reachedEnd, err = r.calculateNextTasks(ctx, []*task{{
 			nodeKey: START,
 			call:    r.inputChannels,
 			output:  input,
@@ -252,7 +253,7 @@ func (r *runner) run(ctx context.Context, isStream bool, input any, opts ...Opti
 		if err != nil {
 			return nil, newGraphRunError(fmt.Errorf("calculate next tasks fail: %w", err))
 		}
-		if result != nil {
+		if reachedEnd {
 			return result, nil
 		}
 		// the direct successors of START are subject to interrupt-before like any other node
@@ -335,11 +336,12 @@ func (r *runner) run(ctx context.Context, isStream bool, input any, opts ...Opti
 		}
 
 		var result any
-		nextTasks, result, err = r.calculateNextTasks(ctx, completedTasks, isStream, cm, optMap)
+		var reachedEnd bool
+		nextTasks, result, reachedEnd, err = r.calculateNextTasks(ctx, completedTasks, isStream, cm, optMap)
 		if err != nil {
 			return nil, newGraphRunError(fmt.Errorf("failed to calculate next tasks: %w", err))
 		}
-		if result != nil {
+		if reachedEnd {
 			return result, nil
 		}
 
@@ -374,12 +376,12 @@ func (r *runner) run(ctx context.Context, isStream bool, input any, opts ...Opti
 				)
 			}
 
-			newNextTasks, result, err := r.calculateNextTasks(ctx, newCompletedTasks, isStream, cm, optMap)
+			newNextTasks, result, reachedEnd, err := r.calculateNextTasks(ctx, newCompletedTasks, isStream, cm, optMap)
 			if err != nil {
 				return nil, newGraphRunError(fmt.Errorf("failed to calculate next tasks: %w", err))
 			}
 
-			if result != nil {
+			if reachedEnd {
 				return result, nil
 			}
 
@@ -574,29 +576,31 @@ func (r *runner) handleInterruptWithSubGraphAndRerunNodes(
 	return &interruptError{Info: intInfo}
 }
 
-func (r *runner) calculateNextTasks(ctx context.Context, completedTasks []*task, isStream bool, cm *channelManager, optMap map[string][]any) ([]*task, any, error) {
+// calculateNextTasks reports separately whether END received a value: the value itself may be nil
+// (a nil value of an interface-typed graph output), so it cannot double as the "reached END" flag.
+func (r *runner) calculateNextTasks(ctx context.Context, completedTasks []*task, isStream bool, cm *channelManager, optMap map[string][]any) ([]*task, any, bool, error) {
 	writeChannelValues, controls, err := r.resolveCompletedTasks(ctx, completedTasks, isStream, cm)
 	if err != nil {
-		return nil, nil, err
+		return nil, nil, false, err
 	}
 	nodeMap, err := cm.updateAndGet(ctx, writeChannelValues, controls)
 	if err != nil {
-		return nil, nil, fmt.Errorf("failed to update and get channels: %w", err)
+		return nil, nil, false, fmt.Errorf("failed to update and get channels: %w", err)
 	}
 	var nextTasks []*task
 	if len(nodeMap) > 0 {
 		// Check if we've reached the END node.
 		if v, ok := nodeMap[END]; ok {
-			return nil, v, nil
+			return nil, v, true, nil
 		}
 
 		// Create and submit the next batch of tasks.
 		nextTasks, err = r.createTasks(ctx, nodeMap, optMap)
 		if err != nil {
-			return nil, nil, fmt.Errorf("failed to create tasks: %w", err)
+			return nil, nil, false, fmt.Errorf("failed to create tasks: %w", err)
 		}
 	}
-	return nextTasks, nil, nil
+	return nextTasks, nil, false, nil
 }
 
 func (r *runner) createTasks(ctx context.Context, nodeMap map[string]any, optMap map[string][]any) ([]*task, error) {
